@@ -6,8 +6,14 @@
 //	SortValues.Less         → Csvq.Gen.rowsLessStep (the body of its loop: decide / continue)
 //
 // over the flat record `Csvq.SV` (Type, Integer, Float, Datetime, String) of Model/SortGen.lean.
-// The leading `if v.SerializedKey != nil { … }` block (--strict-equal) is not translated; its source
-// text is emitted as `strictPrefixLess` / `strictPrefixEquiv` and compared with a reviewed text.
+// The leading `if v.SerializedKey != nil { … }` block (--strict-equal) is TRANSLATED as well:
+//
+//	SortValue.Less          → Csvq.Gen.sortLessStrict  : SV → SV → Bytes → Bytes → Tern   (the block, falling out into sortLess)
+//	SortValue.EquivalentTo  → Csvq.Gen.sortEquivStrict : SV → SV → Bytes → Bytes → Bool
+//	                          Csvq.Gen.sortLessK / sortEquivK over `SVK` (SV + SerializedKey, nil = none)
+//
+// (vk / ck = v.SerializedKey.Bytes() / compareValue.SerializedKey.Bytes(); bytes.Equal, bytes.Compare(…) < 0,
+// Bytes()[i] == n).  The source text of EquivalentTo's block is still emitted as `strictPrefixEquiv` (C17 pins it).
 // Subset: switch over v.Type / compareValue.Type with constant cases, if / return, comparisons of
 // the record fields, math.IsNaN, && || !, ternary constants and ternary.ConvertFromBool.
 // Anything else: exit 1.
@@ -105,6 +111,13 @@ func (t *tr) boolExpr(e ast.Expr) string {
 			return "(!" + t.boolExpr(x.X) + ")"
 		}
 	case *ast.CallExpr:
+		if src(x.Fun) == "bytes.Equal" && len(x.Args) == 2 {
+			a, oka := t.keyExpr(x.Args[0])
+			b, okb := t.keyExpr(x.Args[1])
+			if oka && okb {
+				return "(" + a + " == " + b + ")"
+			}
+		}
 		if src(x.Fun) == "math.IsNaN" && len(x.Args) == 1 {
 			a, k := t.field(x.Args[0])
 			if k != "float" {
@@ -119,6 +132,23 @@ func (t *tr) boolExpr(e ast.Expr) string {
 		case token.LOR:
 			return "(" + t.boolExpr(x.X) + " || " + t.boolExpr(x.Y) + ")"
 		case token.EQL, token.LSS, token.NEQ:
+			// a byte of a serialized key compared with a constant: v.SerializedKey.Bytes()[i] == n
+			if ix, ok := x.X.(*ast.IndexExpr); ok && x.Op == token.EQL {
+				k, okk := t.keyExpr(ix.X)
+				i, oki := ix.Index.(*ast.BasicLit)
+				n, okn := x.Y.(*ast.BasicLit)
+				if okk && oki && okn && i.Kind == token.INT && n.Kind == token.INT {
+					return "(" + k + ".getD " + i.Value + " 0 == " + n.Value + ")"
+				}
+			}
+			// bytes.Compare(key, key) < 0
+			if c, ok := x.X.(*ast.CallExpr); ok && x.Op == token.LSS && src(c.Fun) == "bytes.Compare" && len(c.Args) == 2 && src(x.Y) == "0" {
+				a, oka := t.keyExpr(c.Args[0])
+				b, okb := t.keyExpr(c.Args[1])
+				if oka && okb {
+					return "bytesLt " + a + " " + b
+				}
+			}
 			// comparison with a type constant
 			if id, ok := x.Y.(*ast.Ident); ok {
 				if tc, ok := typeConst[id.Name]; ok {
@@ -150,6 +180,8 @@ func (t *tr) boolExpr(e ast.Expr) string {
 				return "FVal.flt " + a + " " + b
 			case "string==":
 				return "(" + a + " == " + b + ")"
+			case "string!=":
+				return "(" + a + " != " + b + ")"
 			case "string<":
 				return "bytesLt " + a + " " + b
 			}
@@ -251,18 +283,30 @@ func (t *tr) stmts(list []ast.Stmt, fall string, ind string) string {
 	return ""
 }
 
-// split off a leading `if v.SerializedKey != nil { … }`
-func (t *tr) splitStrict(list []ast.Stmt) (string, []ast.Stmt) {
+// the bytes of a serialized key: v.SerializedKey.Bytes() → vk, compareValue.SerializedKey.Bytes() → ck
+func (t *tr) keyExpr(e ast.Expr) (string, bool) {
+	switch src(e) {
+	case t.v + ".SerializedKey.Bytes()":
+		return "vk", true
+	case t.c + ".SerializedKey.Bytes()":
+		return "ck", true
+	}
+	return "", false
+}
+
+// split off a leading `if v.SerializedKey != nil { … }`: its source text, its statements, the rest
+func (t *tr) splitStrict(list []ast.Stmt) (string, []ast.Stmt, []ast.Stmt) {
 	if len(list) > 0 {
-		if is, ok := list[0].(*ast.IfStmt); ok && src(is.Cond) == t.v+".SerializedKey != nil" && is.Else == nil {
+		if is, ok := list[0].(*ast.IfStmt); ok && src(is.Cond) == t.v+".SerializedKey != nil" && is.Else == nil && is.Init == nil {
 			var q []string
 			for _, w := range strings.Fields(src(is.Body)) {
 				q = append(q, fmt.Sprintf("%q", w))
 			}
-			return "[" + strings.Join(q, ", ") + "]", list[1:]
+			return "[" + strings.Join(q, ", ") + "]", is.Body.List, list[1:]
 		}
 	}
-	return "[]", list
+	die("the --strict-equal block `if %s.SerializedKey != nil { … }` no longer opens the function", t.v)
+	return "", nil, nil
 }
 
 func main() {
@@ -295,16 +339,19 @@ func main() {
 	{
 		fd := findMethod(f, "SortValue", "Less")
 		t := &tr{v: fd.Recv.List[0].Names[0].Name, c: fd.Type.Params.List[0].Names[0].Name}
-		strict, body := t.splitStrict(fd.Body.List)
-		o.WriteString(fmt.Sprintf("/-- the --strict-equal prefix of SortValue.Less (not translated) -/\ndef strictPrefixLess : List String :=\n  %s\n\n", strict))
+		_, strict, body := t.splitStrict(fd.Body.List)
 		o.WriteString("/-- `SortValue.Less` without the --strict-equal prefix -/\ndef sortLess (v c : SV) : Tern :=\n  " + t.stmts(body, "Tern.U", "  ") + "\n\n")
+		o.WriteString("/-- the --strict-equal block of `SortValue.Less` (vk, ck = the bytes of the two serialized keys); falling out of the\n    block is the typed comparison -/\ndef sortLessStrict (v c : SV) (vk ck : Bytes) : Tern :=\n  " + t.stmts(strict, "sortLess v c", "  ") + "\n\n")
+		o.WriteString("/-- `SortValue.Less`: `if v.SerializedKey != nil { … }` first -/\ndef sortLessK (v c : SVK) : Tern :=\n  match v.key with\n  | some vk => sortLessStrict v.sv c.sv vk (c.key.getD [])\n  | none => sortLess v.sv c.sv\n\n")
 	}
 	{
 		fd := findMethod(f, "SortValue", "EquivalentTo")
 		t := &tr{v: fd.Recv.List[0].Names[0].Name, c: fd.Type.Params.List[0].Names[0].Name, isBool: true}
-		strict, body := t.splitStrict(fd.Body.List)
-		o.WriteString(fmt.Sprintf("/-- the --strict-equal prefix of SortValue.EquivalentTo (not translated) -/\ndef strictPrefixEquiv : List String :=\n  %s\n\n", strict))
+		text, strict, body := t.splitStrict(fd.Body.List)
+		o.WriteString(fmt.Sprintf("/-- the source text of the --strict-equal block of SortValue.EquivalentTo -/\ndef strictPrefixEquiv : List String :=\n  %s\n\n", text))
 		o.WriteString("/-- `SortValue.EquivalentTo` without the --strict-equal prefix -/\ndef sortEquiv (v c : SV) : Bool :=\n  " + t.stmts(body, "false", "  ") + "\n\n")
+		o.WriteString("/-- the --strict-equal block of `SortValue.EquivalentTo` -/\ndef sortEquivStrict (v c : SV) (vk ck : Bytes) : Bool :=\n  " + t.stmts(strict, "sortEquiv v c", "  ") + "\n\n")
+		o.WriteString("/-- `SortValue.EquivalentTo`: `if v.SerializedKey != nil { … }` first -/\ndef sortEquivK (v c : SVK) : Bool :=\n  match v.key with\n  | some vk => sortEquivStrict v.sv c.sv vk (c.key.getD [])\n  | none => sortEquiv v.sv c.sv\n\n")
 	}
 	{
 		// SortValues.Less: for i, val := range values { t := val.Less(compareValues[i]); … } return false
